@@ -451,6 +451,26 @@ Proof.
     + destruct (lookup m' a); [tauto|congruence].
 Qed.
 
+Lemma step_all_ok k F d :
+  (forall p, In p F -> D p /\ past_only p = true /\ wf_bounds p = true) ->
+  (forall a, D a -> exists p, In p F /\ In a (subs p)) ->
+  Ready k d ->
+  let '(d', vs) := visit_forest AR pk (row w k) F d [] in
+  vs = map (fun p => r p k) F /\ Ready (S k) d'.
+Proof.
+  intros HF Hcov HR.
+  assert (HI : Inv k d []).
+  { split; [intros a Ha; simpl; apply HR; exact Ha|]. intros a v L. discriminate. }
+  pose proof (forest_ok k F d [] HF HI) as H.
+  destruct (visit_forest AR pk (row w k) F d []) as [d' vs]. destruct H as (Hvs & m' & [HI' _] & _ & Hsub).
+  split; [exact Hvs|].
+  intros a Ha. destruct (Hcov a Ha) as (p & Hp & Hin).
+  pose proof (HI' a Ha) as Hinv.
+  destruct (Hsub p a Hp Hin) as [Hl|Hn].
+  - destruct (lookup m' a); [tauto|]. rewrite Hinv. apply canon_leaf. exact Hl.
+  - destruct (lookup m' a); [tauto|congruence].
+Qed.
+
 End OnlineCorrect.
 
 Section Run.
@@ -545,6 +565,40 @@ Theorem online_offline (p : formula) :
 Proof.
   intros Hn Hp Hb Hnp Hw. rewrite (eval_off_correct AR pk p w n Hn Hb Hnp Hw).
   apply (online_correct [p] n); [discriminate|]. intros x [<-|[]]. auto.
+Qed.
+
+Theorem mon_run_all_correct (F : list formula) : forall len k d,
+  (forall p, In p F -> past_only p = true /\ wf_bounds p = true) ->
+  Ready AR pk w n (DF F) k d ->
+  let '(d', vss) := mon_run_all AR pk F d w k len in
+  vss = map (fun k' => map (fun p => rho AR pk p w n k') F) (seq k len) /\ Ready AR pk w n (DF F) (k + len) d'.
+Proof.
+  induction len as [|len IH]; intros k d HF HR.
+  - simpl. rewrite Nat.add_0_r. auto.
+  - simpl.
+    pose proof (step_all_ok AR pk w n (DF F) (DF_un F) (DF_bi F) k F d) as Hs.
+    assert (HF' : forall p, In p F -> DF F p /\ past_only p = true /\ wf_bounds p = true).
+    { intros p Hp. split; [exists p; split; [exact Hp|apply in_subs_self]|apply HF; exact Hp]. }
+    specialize (Hs HF' (fun a Ha => Ha) HR).
+    destruct (visit_forest AR pk (row w k) F d []) as [d1 vs]. destruct Hs as [Hv HR1].
+    specialize (IH (S k) d1 HF HR1).
+    destruct (mon_run_all AR pk F d1 w (S k) len) as [d2 vss]. destruct IH as [Hvss HR2].
+    split; [rewrite Hv, Hvss; reflexivity|]. replace (k + S len) with (S k + len) by lia. exact HR2.
+Qed.
+
+(* get_value(name_j) after the k-th update = what a stand-alone monitor of formula j returns *)
+Theorem get_value_online (F : list formula) (len : nat) :
+  (forall p, In p F -> past_only p = true /\ wf_bounds p = true) ->
+  snd (mon_run_all AR pk F dict_init w 0 len) =
+  map (fun k => map (fun p => nth k (snd (mon_run AR pk [p] dict_init w 0 len)) bot) F) (seq 0 len).
+Proof.
+  intros HF.
+  assert (HR0 : Ready AR pk w n (DF F) 0 dict_init) by (intros a _; unfold dict_init; symmetry; apply canon_0).
+  pose proof (mon_run_all_correct F len 0 dict_init HF HR0) as H.
+  destruct (mon_run_all AR pk F dict_init w 0 len) as [d' vss]. destruct H as [-> _]. simpl snd.
+  apply map_ext_in. intros k Hk. apply in_seq in Hk. apply map_ext_in. intros p Hp.
+  rewrite (online_correct [p] len); [|discriminate|intros x [<-|[]]; apply HF; exact Hp].
+  simpl last. rewrite nth_tab by lia. reflexivity.
 Qed.
 
 End Run.
